@@ -144,6 +144,20 @@ class Facts:
                     node = dict(m, body=m["default"], vis="", attrs=[], docs=[], test=False, provided_by=tname)
                     self.fns.setdefault(key, Fn(key, node, path, module, it, False))
 
+    def unalias(self, ty, depth=0):
+        """A type text with the crate's own non-generic type aliases replaced by what they stand for."""
+        t = norm_ty(ty or "")
+        if depth > 6:
+            return t
+
+        def rep(m):
+            al = self.types.get(m.group(0))
+            if al is None or al.get("generics") or not al.get("ty"):
+                return m.group(0)
+            return self.unalias(al["ty"], depth + 1)
+
+        return re.sub(r"\b[A-Z][A-Za-z0-9_]*\b", rep, t)
+
     def _add_fn(self, key, fn):
         """A `#[cfg(test)]` twin of a function never stands in for the function the library has: the item the users' build
         compiles wins, whichever comes first in the file."""
